@@ -75,6 +75,7 @@ type Op struct {
 	YAML         bool      `json:"yaml,omitempty"`          // feed the document as YAML-converted bytes
 	Reorder      bool      `json:"reorder,omitempty"`       // feed the document with all object members in reverse order
 	SharedMeta   bool      `json:"shared_meta,omitempty"`   // hand the spec validator the one Swagger meta-schema object of this run (expanded in place by earlier validations, as a caller keeping one schema around would have it) instead of the document's own fresh copy
+	ReuseSchema  bool      `json:"reuse_schema,omitempty"`  // hand the library the very *spec.Schema object an earlier operation of this run parsed from the same text (a caller keeping its schema around)
 	ReuseDoc     bool      `json:"reuse_doc,omitempty"`     // validate the very *loads.Document an earlier operation of this run loaded (same bytes, same variant)
 	OptMode      int       `json:"opt_mode,omitempty"`      // 2: only EnableObjectArrayTypeCheck, 3: only EnableArrayMustHaveItemsCheck
 	SkipSchemata bool      `json:"skip_schemata,omitempty"` // WithSkipSchemataResult(true)
@@ -278,14 +279,17 @@ func (r *faultRegistry) Validates(name, data string) bool {
 
 // Env is what operations of one run share: long-lived validators, document corpus, retained results.
 type Env struct {
-	Shared    []*spec.Schema
-	LL        []*LLValidator
-	Retained  []retained // values handed to the caller earlier; re-rendered at the end of the history
-	Keep      bool       // retain returned values
-	LastReg   *faultRegistry
-	meta      *spec.Schema               // the run\'s Swagger meta-schema object (operations with SharedMeta)
-	docs      map[string]*loads.Document // documents loaded by operations with ReuseDoc
-	docReuses int
+	Shared       []*spec.Schema
+	LL           []*LLValidator
+	Retained     []retained // values handed to the caller earlier; re-rendered at the end of the history
+	Keep         bool       // retain returned values
+	LastReg      *faultRegistry
+	meta         *spec.Schema // the run's Swagger meta-schema object (operations with SharedMeta)
+	metaUses     int
+	schemas      map[string]*spec.Schema // schema objects parsed by operations with ReuseSchema
+	schemaReuses int
+	docs         map[string]*loads.Document // documents loaded by operations with ReuseDoc
+	docReuses    int
 }
 
 type retained struct {
@@ -364,6 +368,26 @@ func errOutcome(err error) Outcome {
 		o.Errors = []string{"(non-composite) " + err.Error()}
 	}
 	return o
+}
+
+// schemaFor parses the schema of op, or hands out the object an earlier operation of this run parsed from the same text.
+func (env *Env) schemaFor(op *Op) (*spec.Schema, error) {
+	if !op.ReuseSchema {
+		return parseSchema(op.Schema)
+	}
+	if s, ok := env.schemas[op.Schema]; ok {
+		env.schemaReuses++
+		return s, nil
+	}
+	s, err := parseSchema(op.Schema)
+	if err != nil {
+		return nil, err
+	}
+	if env.schemas == nil {
+		env.schemas = map[string]*spec.Schema{}
+	}
+	env.schemas[op.Schema] = s
+	return s, nil
 }
 
 func parseSchema(text string) (*spec.Schema, error) {
@@ -445,14 +469,14 @@ func (env *Env) exec(op *Op) Outcome {
 		if op.Shared > 0 && op.Shared <= len(env.Shared) {
 			s = env.Shared[op.Shared-1]
 		} else {
-			s = must(parseSchema(op.Schema))
+			s = must(env.schemaFor(op))
 		}
 		d := must(decodeJSON(op.Data, op.UseNumber))
 		err := validate.AgainstSchema(s, d, op.registry(env), op.schemaOpts()...)
 		env.retain(op, func() string { return errOutcome(err).Key() })
 		return errOutcome(err)
 	case KSchemaRec, KSchemaNR:
-		s := must(parseSchema(op.Schema))
+		s := must(env.schemaFor(op))
 		d := must(decodeJSON(op.Data, op.UseNumber))
 		opts := op.schemaOpts()
 		if op.Kind == KSchemaRec {
@@ -487,9 +511,10 @@ func (env *Env) exec(op *Op) Outcome {
 		doc := must(env.loadDoc(op))
 		meta := doc.Schema()
 		if op.SharedMeta {
-			if env.meta == nil {
-				env.meta = spec.MustLoadSwagger20Schema()
+			if env.meta == nil || env.metaUses >= metaRenewAfter {
+				env.meta, env.metaUses = spec.MustLoadSwagger20Schema(), 0
 			}
+			env.metaUses++
 			meta = env.meta
 		}
 		sv := validate.NewSpecValidator(meta, op.registry(env))
